@@ -181,8 +181,24 @@ def r_fail(sh, rep):
     idx_failed = None
     strict = lang_ok = False
     for i, st in enumerate(stmts):
-        for n in walk(st):
-            if n.get("k") == "MethodCall" and n["m"] == "failed" and sh.nsrc(EV, n["recv"]) == "eval_result" and "returnErr(" in sh.nsrc(EV, st):
+        e = st.get("e", st)
+        if e.get("k") != "If" or "returnErr(" not in sh.nsrc(EV, e["then"]):
+            continue
+        # the verdict decides alone (or as one disjunct): a conjunction with anything else weakens it
+        disj = []
+
+        def split_or(c):
+            if c.get("k") == "Binary" and c["op"] == "||":
+                split_or(c["l"])
+                split_or(c["r"])
+            elif c.get("k") == "Paren":
+                split_or(c["e"])
+            else:
+                disj.append(c)
+
+        split_or(e["cond"])
+        for n in disj:
+            if n.get("k") == "MethodCall" and n["m"] == "failed" and sh.nsrc(EV, n["recv"]) == "eval_result":
                 idx_failed = i if idx_failed is None else idx_failed
                 strict = len(n["args"]) == 2 and sh.nsrc(EV, n["args"][0]) == "false"
                 lang_ok = len(n["args"]) == 2 and re.sub(r"^&", "", sh.nsrc(EV, n["args"][1])) in langs
